@@ -74,6 +74,40 @@ func init() {
 	regScenario("lease3", mkLease(false, []int{0, 1, 2}))
 	regScenario("lease3-b", mkLease(false, []int{2, 0, 1}))
 	regScenario("lease2nv", mkLease(true, []int{0, 1, 2}))
+	// the isolated leader stays busy: a client keeps submitting commands every 30 ms (well inside the lease), so
+	// its main loop never idles; it must still step down on time
+	regScenario("lease3-busy", func() *Scenario {
+		sc := mkLease(false, []int{0, 1, 2})()
+		probe := sc.Steps[2]
+		steps := []Step{sc.Steps[0], sc.Steps[1]}
+		for k := 1; k <= 9; k++ {
+			k := k
+			steps = append(steps, stepDo(fmt.Sprintf("busy-apply-%d", k), func(w *World) bool {
+				return w.vals["isolated"] == 1 && w.now() >= w.tvals["iso"]+time.Duration(k)*30*time.Millisecond
+			}, func(w *World) {
+				if o := w.nodes[w.vals["old"]]; o.up && o.r != nil {
+					c := w.apply(o, 0)
+					c.Kind = "apply-busy"
+				}
+			}))
+		}
+		sc.Steps = append(steps, probe)
+		return sc
+	})
+	// as lease2nv, judged for C17: the calls in flight on the stranded leader must resolve
+	regScenario("lease2nv-live", func() *Scenario {
+		sc := mkLease(true, []int{0, 1, 2})()
+		sc.Liveness = true
+		sc.Steps = append(sc.Steps[:2:2], stepDo("calls-on-stranded-leader", func(w *World) bool {
+			return w.vals["isolated"] == 1 && w.now() >= w.tvals["iso"]+10*time.Millisecond
+		}, func(w *World) {
+			o := w.nodes[w.vals["old"]]
+			w.apply(o, 0)
+			w.verify(o)
+			w.barrier(o)
+		}), sc.Steps[2])
+		return sc
+	})
 
 	// C13 second half: a fault-free cluster keeps one leader and one term.
 	regScenario("quiet3", func() *Scenario {
